@@ -506,7 +506,12 @@ class Controller:
                 )
             )
         elif result is not None:
-            logger.error("Async command handlers should return None, got %s", result)
+            # The handler did not send a Command Status itself (for example the
+            # default handler for unsupported or unknown commands): report the
+            # status it returned, so that the host is not left waiting.
+            self._send_hci_command_status(
+                getattr(result, 'status', hci.HCI_ErrorCode.SUCCESS), command.op_code
+            )
 
     def on_hci_event_packet(self, _event: hci.HCI_Packet) -> None:
         logger.warning('!!! unexpected event packet')
